@@ -183,7 +183,10 @@ func (c *DeviceCodeTokenEndpointHandler) HandleTokenEndpointRequest(ctx context.
 	// Checking of POST client_id skipped, because
 	// if the client type is confidential or the client was issued client credentials (or assigned other authentication requirements),
 	// the client MUST authenticate with the authorization server as described in Section 3.2.1.
-	requester.SetSession(ar.GetSession())
+	// Work on a copy of the stored session (as the refresh token and authorization code handlers do): a store that
+	// returns its records by reference would otherwise have concurrent polls of the same device code write the token
+	// expiries into one shared session object.
+	requester.SetSession(ar.GetSession().Clone())
 	requester.SetID(ar.GetID())
 
 	atLifespan := fosite.GetEffectiveLifespan(requester.GetClient(), c.getGrantType(requester), fosite.AccessToken, c.Config.GetAccessTokenLifespan(ctx))
